@@ -8,6 +8,7 @@ import (
 	"go/types"
 	"os"
 	"path/filepath"
+	"regexp"
 	"sort"
 	"strings"
 	"sync"
@@ -29,22 +30,22 @@ type FuncInfo struct {
 }
 
 type Engine struct {
-	pathMu    sync.Mutex
-	pathIDs   map[string]int // numbering of interior-pointer field paths
-	mutexKeys map[string]bool // heap keys of mutex fields operated on (kept across havoc)
-	repo, verif string
-	fset        *token.FileSet
-	pkgs        map[string]*packages.Package // by short path
-	smt         *Smt
-	sh          *shaper
-	cs          *ContractSet
-	funcs       map[string]*FuncInfo
-	heapMu      sync.Mutex
-	heapSorts   map[string]string
-	epochN      int
-	allocN      int
-	nowN        int
-	qn          int
+	pathMu       sync.Mutex
+	pathIDs      map[string]int  // numbering of interior-pointer field paths
+	mutexKeys    map[string]bool // heap keys of mutex fields operated on (kept across havoc)
+	repo, verif  string
+	fset         *token.FileSet
+	pkgs         map[string]*packages.Package // by short path
+	smt          *Smt
+	sh           *shaper
+	cs           *ContractSet
+	funcs        map[string]*FuncInfo
+	heapMu       sync.Mutex
+	heapSorts    map[string]string
+	epochN       int
+	allocN       int
+	nowN         int
+	qn           int
 	extraDropped map[string]bool
 	autoInline   map[string]bool
 	ownedTypes   map[string]bool
@@ -351,8 +352,10 @@ func (eng *Engine) expandLitWildcards() {
 
 // synthLockContracts: for every `lockdiscipline pkg.Type mu props P` directive, each method of
 // the type (with a body) gets the contract variant `<method>#locks`:
-//   assert locks; only lock-discipline obligations; the receiver's mutex is free at entry and
-//   at every return (held at both for the methods listed under `held:`); effects unconstrained.
+//
+//	assert locks; only lock-discipline obligations; the receiver's mutex is free at entry and
+//	at every return (held at both for the methods listed under `held:`); effects unconstrained.
+//
 // Reads/writes of the fields declared guarded_by the mutex are then obligations of each method.
 func (eng *Engine) synthLockContracts() {
 	for _, ld := range eng.cs.Locks {
@@ -561,68 +564,68 @@ func (eng *Engine) srcLine(pos token.Pos) string {
 // ---------------------------------------------------------------------------
 
 type Exec struct {
-	eng      *Engine
-	fn       *FuncInfo
-	info     *types.Info
-	contract *Contract
-	prop     string
-	obs      []*Obligation
-	init     map[types.Object]*Val
-	inputs   []types.Object
-	entry    *State
-	lets     map[string]*Val
-	rets     []retState
-	inlineRets  []retState
-	inlineDepth int
-	recs     []*recorder
-	discovery int
-	bound    int
-	specDepth int
-	arithMode string
-	loopOrd, selectOrd int
+	eng                  *Engine
+	fn                   *FuncInfo
+	info                 *types.Info
+	contract             *Contract
+	prop                 string
+	obs                  []*Obligation
+	init                 map[types.Object]*Val
+	inputs               []types.Object
+	entry                *State
+	lets                 map[string]*Val
+	rets                 []retState
+	inlineRets           []retState
+	inlineDepth          int
+	recs                 []*recorder
+	discovery            int
+	bound                int
+	specDepth            int
+	arithMode            string
+	loopOrd, selectOrd   int
 	onlySelect, onlyCase int
-	inLoop   int
-	deferN   int
-	anchorN  int
-	hiddenVars map[string]types.Object
-	notes    map[string]bool
-	assumptions map[string]bool
-	specErrs []string
-	curClause string
-	unsupported []string
-	dropped  map[string]int
-	unknown  map[string]int
-	modelUsed map[string]int
-	usedContracts map[string]int
-	assumedUsed map[string]int
-	callN    map[string]int
-	callSites map[string]map[token.Pos]int
-	nameCount map[string]int
-	nowVals  []*Val
-	insertOnlyN int
-	nilResetN   int
-	loopOrdMax  int // highest loop ordinal met while executing the function under verification
-	tickerRefs []string // tickers created so far by the function under verification
-	lockCheck bool
-	stNow     *State    // the state of the statement being executed (for obligations raised while boxing a value)
-	stmtPos   token.Pos
-	boxedN    int
-	examined  map[string]bool // insert-only tables: (table value, key) pairs looked up
-	ownsCheckOn bool
-	safetyKinds map[string]bool
-	boundMake bool
-	guardN   map[string]int
-	ownsN    int
-	loopMutexPre []map[string]string
-	splitCases []string // `split` clauses of the contract, evaluated at entry
-	paramsAtEntry bool // evaluating an ensures clause: parameters denote entry values
-	regionStart token.Pos // where the verified region (body or fragment) begins: variables declared before it have an entry value
-	finalN   int
-	written  map[string]bool
-	havocGhosts bool
-	curCall  *ast.CallExpr
-	entryFresh int
-	keepGhosts bool
+	inLoop               int
+	deferN               int
+	anchorN              int
+	hiddenVars           map[string]types.Object
+	notes                map[string]bool
+	assumptions          map[string]bool
+	specErrs             []string
+	curClause            string
+	unsupported          []string
+	dropped              map[string]int
+	unknown              map[string]int
+	modelUsed            map[string]int
+	usedContracts        map[string]int
+	assumedUsed          map[string]int
+	callN                map[string]int
+	callSites            map[string]map[token.Pos]int
+	nameCount            map[string]int
+	nowVals              []*Val
+	insertOnlyN          int
+	nilResetN            int
+	loopOrdMax           int      // highest loop ordinal met while executing the function under verification
+	tickerRefs           []string // tickers created so far by the function under verification
+	lockCheck            bool
+	stNow                *State // the state of the statement being executed (for obligations raised while boxing a value)
+	stmtPos              token.Pos
+	boxedN               int
+	examined             map[string]bool // insert-only tables: (table value, key) pairs looked up
+	ownsCheckOn          bool
+	safetyKinds          map[string]bool
+	boundMake            bool
+	guardN               map[string]int
+	ownsN                int
+	loopMutexPre         []map[string]string
+	splitCases           []string  // `split` clauses of the contract, evaluated at entry
+	paramsAtEntry        bool      // evaluating an ensures clause: parameters denote entry values
+	regionStart          token.Pos // where the verified region (body or fragment) begins: variables declared before it have an entry value
+	finalN               int
+	written              map[string]bool
+	havocGhosts          bool
+	curCall              *ast.CallExpr
+	entryFresh           int
+	keepGhosts           bool
 }
 
 func (eng *Engine) newExec(fi *FuncInfo, c *Contract, prop string) *Exec {
@@ -933,6 +936,19 @@ func (eng *Engine) verify(c *Contract, prop string) (rep *FuncReport, err error)
 				}
 			}
 		}
+		// every mutex field of the receiver's type counts, declared in a directive or not (a mutex added later is
+		// free at entry like the others)
+		if fi.Sig != nil && fi.Sig.Recv() != nil {
+			if n := namedOf(fi.Sig.Recv().Type()); n != nil {
+				if stt, ok := n.Underlying().(*types.Struct); ok {
+					for k := 0; k < stt.NumFields(); k++ {
+						if ts := types.TypeString(stt.Field(k).Type(), nil); ts == "sync.Mutex" || ts == "sync.RWMutex" {
+							eng.mutexKeys[heapKey(heapTypeKey(n), stt.Field(k).Name())] = true
+						}
+					}
+				}
+			}
+		}
 		keys := make([]string, 0, len(eng.mutexKeys))
 		for k := range eng.mutexKeys {
 			keys = append(keys, k)
@@ -941,7 +957,18 @@ func (eng *Engine) verify(c *Contract, prop string) (rep *FuncReport, err error)
 		for _, k := range keys {
 			eng.regHeap(k, "(Array Int Int)")
 			arr := ex.heapArr(st, k, "Int")
+			// the receiver's own mutex is what the contract's preconditions speak of (free, or held by the caller);
+			// a mutex of the receiver that no precondition mentions is free like everybody else's
+			mentioned := false
 			if recvRef != "" && strings.HasPrefix(k, recvKeyPrefix) {
+				re := regexp.MustCompile(`\.` + regexp.QuoteMeta(strings.TrimPrefix(k, recvKeyPrefix)) + `\b`)
+				for _, cl := range c.Clauses {
+					if cl.Kind == "requires" && re.MatchString(cl.Text) {
+						mentioned = true
+					}
+				}
+			}
+			if mentioned {
 				st.assume("(forall ((r Int)) (! (=> (not (= r " + recvRef + ")) (= (select " + arr + " r) 0)) :pattern ((select " + arr + " r))))")
 			} else {
 				st.assume("(forall ((r Int)) (! (= (select " + arr + " r) 0) :pattern ((select " + arr + " r))))")
@@ -1447,7 +1474,8 @@ func (eng *Engine) verifyLemma(lm *Lemma, prop string) (*Obligation, []string) {
 // per field of the struct that no other discipline covers. The obligation holds when every assignment to the field
 // (plain, op-assign, ++/--, address taken) is in an init function - those run before the goroutines of the type
 // exist - or when every access, read or write, is in an init function or in a function of the one goroutine named
-// under `thread:`. A function literal counts as part of the function that contains it, except that a literal
+// under `thread:`, or is made while some mutex is held (going by the Lock / Unlock calls that precede it in its function:
+// a field given a lock of its own later on is not reported for want of a declaration). A function literal counts as part of the function that contains it, except that a literal
 // started with `go` is neither init nor thread (it is a goroutine of its own).
 func (eng *Engine) confineObligations(cf Confine, prop string) []*Obligation {
 	var st *types.Struct
@@ -1494,10 +1522,11 @@ func (eng *Engine) confineObligations(cf Confine, prop string) []*Obligation {
 		return isChan
 	}
 	type acc struct {
-		fn    string
-		write bool
-		pos   token.Pos
-		gofn  bool
+		fn     string
+		write  bool
+		pos    token.Pos
+		gofn   bool
+		locked bool // some mutex is held, going by the Lock / Unlock calls that precede the access in its function
 	}
 	accs := map[*types.Var][]acc{}
 	fields := map[*types.Var]bool{}
@@ -1519,6 +1548,41 @@ func (eng *Engine) confineObligations(cf Confine, prop string) []*Obligation {
 				}
 				writes := map[ast.Expr]bool{}
 				goLits := map[*ast.FuncLit]bool{}
+				// positions where some mutex is taken / given back (deferred unlocks give it back at the end)
+				var lockPos, unlockPos []token.Pos
+				deferred := map[*ast.CallExpr]bool{}
+				ast.Inspect(fd.Body, func(n ast.Node) bool {
+					switch x := n.(type) {
+					case *ast.DeferStmt:
+						deferred[x.Call] = true
+					case *ast.CallExpr:
+						if sel, ok := x.Fun.(*ast.SelectorExpr); ok && len(x.Args) == 0 {
+							switch sel.Sel.Name {
+							case "Lock", "RLock":
+								lockPos = append(lockPos, x.Pos())
+							case "Unlock", "RUnlock":
+								if !deferred[x] {
+									unlockPos = append(unlockPos, x.Pos())
+								}
+							}
+						}
+					}
+					return true
+				})
+				underLock := func(p token.Pos) bool {
+					n := 0
+					for _, q := range lockPos {
+						if q < p {
+							n++
+						}
+					}
+					for _, q := range unlockPos {
+						if q < p {
+							n--
+						}
+					}
+					return n > 0
+				}
 				ast.Inspect(fd.Body, func(n ast.Node) bool {
 					switch x := n.(type) {
 					case *ast.AssignStmt:
@@ -1557,7 +1621,7 @@ func (eng *Engine) confineObligations(cf Confine, prop string) []*Obligation {
 						if !ok || !fields[v] {
 							return true
 						}
-						accs[v] = append(accs[v], acc{fn: fd.Name.Name, write: writes[sel], pos: sel.Pos(), gofn: inGo})
+						accs[v] = append(accs[v], acc{fn: fd.Name.Name, write: writes[sel], pos: sel.Pos(), gofn: inGo, locked: underLock(sel.Pos())})
 						return true
 					})
 				}
@@ -1590,7 +1654,7 @@ func (eng *Engine) confineObligations(cf Confine, prop string) []*Obligation {
 			if a.write && !init {
 				strayW = append(strayW, loc)
 			}
-			if !init && !thr {
+			if !init && !thr && !a.locked {
 				strayA = append(strayA, loc)
 				if pos == "" {
 					pos = fmt.Sprintf("%s:%d", shortFile(eng, at.Filename), at.Line)
@@ -1599,7 +1663,7 @@ func (eng *Engine) confineObligations(cf Confine, prop string) []*Obligation {
 		}
 		ok := len(strayW) == 0 || len(strayA) == 0
 		if !ok {
-			text += "; failed: it is assigned outside the init functions (" + strings.Join(strayW, ", ") + ") and also touched outside both the init functions and the goroutine (" + strings.Join(strayA, ", ") + ") with no lock, atomic or channel in between"
+			text += "; failed: it is assigned outside the init functions (" + strings.Join(strayW, ", ") + ") and also touched with no mutex held outside both the init functions and the goroutine (" + strings.Join(strayA, ", ") + ")"
 		}
 		out = append(out, mk(v.Name(), text, ok, pos))
 	}
@@ -1614,8 +1678,8 @@ func shortFile(eng *Engine, fn string) string {
 }
 
 // goTrackedObligations decides a `gotracked` directive over the typed AST: one obligation per `go` statement in the
-// methods of the type (function literals included). It holds when the statement just before the `go`, in the same
-// block, is `<x>.<wg>.Add(...)` for one of the listed wait groups - the ones Stop waits for - so no goroutine of the
+// methods of the type (function literals included). It holds when a statement `<x>.<wg>.Add(...)` for one of the listed
+// wait groups - the ones Stop waits for - comes before the `go` in the same or an enclosing block, so no goroutine of the
 // type can outlive Stop unnoticed. A last obligation counts the statements, so a type whose methods start nothing
 // still generates one.
 func (eng *Engine) goTrackedObligations(gt GoTracked, prop string) []*Obligation {
@@ -1651,52 +1715,67 @@ func (eng *Engine) goTrackedObligations(gt GoTracked, prop string) []*Obligation
 		}
 		found = true
 		cnt := 0
-		var visit func(list []ast.Stmt)
-		check := func(list []ast.Stmt, k int, g *ast.GoStmt) {
-			cnt++
-			ok := false
-			if k > 0 {
-				if es, isE := list[k-1].(*ast.ExprStmt); isE {
-					if call, isC := es.X.(*ast.CallExpr); isC {
-						if sel, isS := call.Fun.(*ast.SelectorExpr); isS && sel.Sel.Name == "Add" {
-							if wsel, isW := ast.Unparen(sel.X).(*ast.SelectorExpr); isW && gt.Wait[wsel.Sel.Name] {
-								if tv, has := fi.Pkg.TypesInfo.Types[wsel]; has && strings.HasSuffix(types.TypeString(tv.Type, nil), "sync.WaitGroup") {
-									ok = true
-								}
-							}
-						}
-					}
-				}
+		isAdd := func(s ast.Stmt) bool {
+			es, isE := s.(*ast.ExprStmt)
+			if !isE {
+				return false
 			}
+			call, isC := es.X.(*ast.CallExpr)
+			if !isC {
+				return false
+			}
+			sel, isS := call.Fun.(*ast.SelectorExpr)
+			if !isS || sel.Sel.Name != "Add" {
+				return false
+			}
+			wsel, isW := ast.Unparen(sel.X).(*ast.SelectorExpr)
+			if !isW || !gt.Wait[wsel.Sel.Name] {
+				return false
+			}
+			tv, has := fi.Pkg.TypesInfo.Types[wsel]
+			return has && strings.HasSuffix(types.TypeString(tv.Type, nil), "sync.WaitGroup")
+		}
+		var visit func(list []ast.Stmt, seen bool)
+		check := func(g *ast.GoStmt, ok bool) {
+			cnt++
 			at := eng.fset.Position(g.Pos())
-			text := "the goroutine started in " + fi.Decl.Name.Name + " is announced to a wait group Stop waits for in the statement before the go statement"
+			text := "the goroutine started in " + fi.Decl.Name.Name + " is announced to a wait group Stop waits for (an Add on it comes before the go statement, in the same or an enclosing block)"
 			if !ok {
-				text += "; failed: no such WaitGroup.Add precedes the go statement at " + filepath.Base(at.Filename) + fmt.Sprintf(":%d", at.Line) + " (the goroutine can outlive Stop)"
+				text += "; failed: no such WaitGroup.Add comes before the go statement at " + filepath.Base(at.Filename) + fmt.Sprintf(":%d", at.Line) + " (the goroutine can outlive Stop)"
 			}
 			out = append(out, mk(fmt.Sprintf("%s#%d", fi.Decl.Name.Name, cnt), text, ok, fmt.Sprintf("%s:%d", shortFile(eng, at.Filename), at.Line)))
 		}
-		visit = func(list []ast.Stmt) {
-			for k, s := range list {
-				if g, isG := s.(*ast.GoStmt); isG {
-					check(list, k, g)
+		visit = func(list []ast.Stmt, seen bool) {
+			for _, s := range list {
+				if isAdd(s) {
+					seen = true
 				}
+				if g, isG := s.(*ast.GoStmt); isG {
+					check(g, seen)
+				}
+				here := seen
 				ast.Inspect(s, func(m ast.Node) bool {
 					switch b := m.(type) {
+					case *ast.FuncLit:
+						// a goroutine or callback body: what its creator announced does not cover what it starts
+						visit(b.Body.List, false)
+						return false
 					case *ast.BlockStmt:
-						visit(b.List)
+						visit(b.List, here)
 						return false
 					case *ast.CaseClause:
-						visit(b.Body)
+						visit(b.Body, here)
 						return false
 					case *ast.CommClause:
-						visit(b.Body)
+						visit(b.Body, here)
 						return false
 					}
 					return true
 				})
 			}
 		}
-		visit(fi.Body.List)
+		cnt = 0
+		visit(fi.Body.List, false)
 	}
 	out = append(out, mk("type-has-methods", "the type under the gotracked directive exists and has methods", found, ""))
 	return out
